@@ -79,6 +79,9 @@ pub enum Cert {
     TamperedA,
     /// Ed25519 whose raw public key starts with the byte 0xFF (key + 1 carries into the second byte)
     Ed25519FF,
+    /// EC P-521, self-signed, in the trust file: the 133-byte key makes every DER length of the final CredSSP round
+    /// fall into 128..255 (one long-form octet)
+    P521,
     /// certificates derived from a valid one by DER surgery (signature no longer valid: only usable with
     /// certificate checking off); index into ODD_CERTS
     Odd(u8),
@@ -89,7 +92,7 @@ pub const ODD_CERTS: [&str; 10] = ["x509v1", "version4", "gentime", "badtime", "
 impl Cert {
     /// does a verifier holding the harness trust file accept this certificate today
     pub fn trusted(&self) -> bool {
-        matches!(self, Cert::A | Cert::B | Cert::ChainTrusted)
+        matches!(self, Cert::A | Cert::B | Cert::ChainTrusted | Cert::P521)
     }
     pub fn files(&self) -> (String, String) {
         if let Cert::Odd(i) = self {
@@ -113,6 +116,7 @@ impl Cert {
             Cert::Forged => ("forged.cert.pem", "forged.key.pem"),
             Cert::TamperedA => ("tamper.cert.pem", "a.key.pem"),
             Cert::Ed25519FF => ("edff.cert.pem", "edff.key.pem"),
+            Cert::P521 => ("p521.cert.pem", "p521.key.pem"),
             Cert::Odd(_) => unreachable!(),
         };
         (c.to_string(), k.to_string())
@@ -364,7 +368,39 @@ pub fn connector(c: &ConnCfg) -> Connector {
             flags(creds(other))
         }
         // flags, credentials, flags again
-        _ => flags(creds(flags(base))),
+        3 => flags(creds(flags(base))),
+        // only the calls that ask for something: every setting equal to the documented default of Connector::new()
+        // (800x600, US layout, "rdp-rs", NLA on, no auto logon, no restricted admin, full credentials, no certificate
+        // check) is left to that default — "not requested" means the builder call was never made
+        _ => {
+            let mut k = Connector::new();
+            if (c.client.width, c.client.height) != (800, 600) {
+                k = k.screen(c.client.width, c.client.height);
+            }
+            if c.client.layout != 0 {
+                k = k.layout(layout_of(c.client.layout));
+            }
+            if c.client.name != "rdp-rs" {
+                k = k.name(c.client.name.clone());
+            }
+            k = creds(k);
+            if c.client.auto_logon {
+                k = k.auto_logon(true);
+            }
+            if !c.use_nla {
+                k = k.use_nla(false);
+            }
+            if c.restricted_admin {
+                k = k.set_restricted_admin_mode(true);
+            }
+            if c.blank_creds {
+                k = k.blank_creds(true);
+            }
+            if c.check_certificate {
+                k = k.check_certificate(true);
+            }
+            k
+        }
     }
 }
 
@@ -382,6 +418,16 @@ pub fn tls_connect(cfg: &ConnCfg, p: ServerParams, devs: Vec<Deviation>, cert: C
 
 /// same, with a transport that hands over / accepts bytes in pieces (end-to-end fragmentation under TLS)
 pub fn tls_connect_fragmented(cfg: &ConnCfg, mut p: ServerParams, devs: Vec<Deviation>, cert: Cert, rp: crate::memlink::ReadPlan, wp: crate::memlink::WritePlan) -> Result<TlsConn, String> {
+    // the client's "random" values (NTLM client challenge, exported session key) are the same in every run and in a
+    // replay: what a byte-level fault on a sealed message hits must not depend on the run
+    struct Unpattern;
+    impl Drop for Unpattern {
+        fn drop(&mut self) {
+            rdp::model::rnd::verif::set_pattern(None);
+        }
+    }
+    let _unpattern = Unpattern;
+    rdp::model::rnd::verif::set_pattern(Some((0..61u32).map(|i| (i.wrapping_mul(0x9E37_79B1) >> 23) as u8 ^ 0x5C).collect()));
     // the NTLM verifier needs the account the client will use
     p.acct_user = cfg.client.user.clone();
     p.acct_domain = cfg.client.domain.clone();
